@@ -2,7 +2,7 @@
 from world import amounts, specials
 
 ID = "C10"
-LEAN_MODULES = ["QtyModel.Props.C10", "QtyModel.Props.TieNoRef", "QtyModel.Props.TieKindsNoRef"]
+LEAN_MODULES = ["QtyModel.Props.C10", "QtyModel.Props.TieNoRefCmp", "QtyModel.Props.TieNoRefAddSub", "QtyModel.Props.TieNoRefDiv", "QtyModel.Props.TieKindsNoRefCmp", "QtyModel.Props.TieKindsNoRefAddSub", "QtyModel.Props.TieKindsNoRefDiv"]
 HARNESS_GROUPS = ()
 RULE = ("all types without reference unit (Temperature, synthetic no-ref, single-unit) x all ordered unit pairs x "
         "amount pairs (equal amounts in different units included) x ops cmp/add/sub/div; "
